@@ -3,7 +3,7 @@ import z3
 
 from pyvc.symex import Contract, Loop, spec, View, Outcomes
 from pyvc.symval import (Bo, Unsupported, TArr, TBool, TFloat, TInt, TObj, TOpaque, TReal, TSeq, TStr, TConst, NR, TOptional, fresh, I, R,
-                         MaybeNone, Func, Opaque, TNone)
+                         MaybeNone, Func, Opaque, TNone, ArrC, Ref)
 
 F = 'andes/routines/tds.py'
 Mat = TOpaque('Mat')
@@ -887,6 +887,26 @@ def tds_init(pid):
 
     def to_z3_b(x):
         return z3.BoolVal(x) if isinstance(x, bool) else x
+
+    def store_switch_times_h(ex, st, args, kw, node):
+        # callee contract (C06: System.store_switch_times): builds the schedule for the models passed
+        ok = len(args) == 1 and args[0] is st.load('self.system.exist.tds')
+        n = fresh('n_switches', I)
+        st.assume(n >= 0)
+        arr = st.new_ref(ArrC(fresh('switch_times', z3.ArraySort(I, R)), n, None), 'switch_times')
+        st.store('self.system.switch_times', arr)
+        st.store('self.system.n_switches', n)
+        st.ghost['sched'] = (arr, st.content(arr), n, bool(ok))
+        return arr
+
+    def sched_kept(old, new, res):
+        g = new.st.ghost.get('sched')
+        if g is None:
+            return old.z('self.initialized')
+        arr, content, n, ok = g
+        cur = new.get('self.system.switch_times')
+        same = isinstance(cur, Ref) and cur.loc == arr.loc and new.st.content(cur) is content
+        return z3.And(z3.BoolVal(bool(same and ok)), new.z('self.system.n_switches') == n)
     c = Contract(F, 'TDS.init', pid=pid, params={'self': TObj()},
                  schema={'self.initialized': TBool(), 'self.system.dae.x': TArr(nan=True, n=NX), 'self.system.dae.y': TArr(nan=True, n=NY),
                          'self.system.PFlow.x_sol': TArr(nan=True, n=PX), 'self.system.PFlow.y_sol': TArr(nan=True, n=PY),
@@ -896,10 +916,11 @@ def tds_init(pid):
                          'self.system.dae.m': TInt(), 'self.system.dae.f': TArr(nan=True), 'self.system.antiwindups': TOpaque('AW'),
                          'self.system.streaming.dimec': TOptional(TOpaque('Dimec')), 'self.system.config.dime_enabled': TBool(),
                          'self.Teye': TOpaque('Mat'), 'self.qg': TArr(), 'self.x0': TArr(), 'self.y0': TArr(), 'self.f0': TArr(),
-                         'self.system.files.case': TStr()},
+                         'self.system.files.case': TStr(), 'self.system.switch_times': TArr(), 'self.system.n_switches': TInt(),
+                         'self.config.tf': TReal(), 'self.config.t0': TReal()},
                  requires=[('solution-fits', lambda v: z3.And(PX >= 0, PY >= 0, PX <= NX, PY <= NY)),
                            ('no-csv', lambda v: v.isnone('self.data_csv'))],
-                 ghost_init={'test': None},
+                 ghost_init={'test': None, 'sched': None},
                  calls={'elapsed': spec(returns=(NR(z3.Real('t_el')), 's'), name='elapsed'), 'self.reset': spec(name='TDS.reset'),
                         'self._load_pert': spec(name='_load_pert'), 'self.system.set_address': set_address,
                         'self.system.set_dae_names': spec(name='set_dae_names'), 'self.system.set_output_subidx': spec(name='set_output_subidx'),
@@ -909,7 +930,7 @@ def tds_init(pid):
                         'self.system.vars_to_models': spec(name='vars_to_models'),
                         'self.system.init': spec(modifies=['loc:self.system.dae.*'], name='System.init'),
                         'self.fg_update': spec(modifies=['loc:self.system.dae.*'], name='TDS.fg_update'),
-                        'self.system.store_switch_times': spec(name='store_switch_times'),
+                        'self.system.store_switch_times': store_switch_times_h,
                         'spdiag': lambda ex, st, a, k, n: Opaque(fresh('Teye', z3.DeclareSort('Mat'))),
                         'self.test_init': test_init_h, 'self.system.streaming.connect': spec(name='connect'),
                         'self.streaming_init': spec(name='streaming_init'), 'self.streaming_step': spec(name='streaming_step'),
@@ -919,8 +940,9 @@ def tds_init(pid):
                            'tqdm': __import__('pyvc.symval', fromlist=['Module']).Module('tqdm')},
                  loops={0: Loop(summary=lambda ex, st, node: [(st, None, None)])},
                  ensures=[('fresh-init=>initialized-set-and-test-result-recorded', post),
+                          ('event-schedule-is-exactly-what-store_switch_times(exist.tds)-built(no-event-dropped-or-added)', sched_kept),
                           ('already-initialised=>nothing-redone', lambda old, new, res: z3.Implies(
                               old.z('self.initialized'), new.z('self.system.dae.t') == old.z('self.system.dae.t')))],
-                 modifies=['self.*', 'self.system.dae.*'])
+                 modifies=['self.*', 'self.system.dae.*', 'self.system.switch_times', 'self.system.n_switches'])
     c.check_bounds = False
     return c
